@@ -246,7 +246,7 @@ const prelude = `(set-option :produce-models true)
 // For proof goals, positive universal quantifiers of the goal are skolemised and the universally
 // quantified hypotheses are additionally instantiated at the candidate index terms (sound; the
 // quantified hypotheses themselves stay in the query).
-func (c *Ctx) render(pc []string, goal string, cover bool, cands []string) string {
+func (c *Ctx) render(pc []string, goal string, cover bool, cands []string, lens []string, lite bool) string {
 	var b strings.Builder
 	b.WriteString(prelude)
 	b.WriteString(c.sorts.render())
@@ -269,6 +269,9 @@ func (c *Ctx) render(pc []string, goal string, cover bool, cands []string) strin
 		if p == "true" {
 			continue
 		}
+		if lite && !cover && (strings.Contains(p, "(forall ") || strings.Contains(p, "(exists ")) {
+			continue // written below in weakened form
+		}
 		b.WriteString("(assert " + p + ")\n")
 	}
 	if cover {
@@ -279,7 +282,7 @@ func (c *Ctx) render(pc []string, goal string, cover bool, cands []string) strin
 		return b.String()
 	}
 	n := 0
-	in := &instantiator{limit: envInt("GOVC_INST_LIMIT", 600), seen: map[string]bool{}, fresh: &n, max2: envInt("GOVC_CANDS2", 7)}
+	in := &instantiator{limit: envInt("GOVC_INST_LIMIT", 600), seen: map[string]bool{}, fresh: &n, max2: envInt("GOVC_CANDS2", 7), lens: lens}
 	g := goal
 	if strings.Contains(goal, "(forall ") {
 		if t, err := parseSx(goal); err == nil {
@@ -311,8 +314,15 @@ func (c *Ctx) render(pc []string, goal string, cover bool, cands []string) strin
 	for _, d := range in.newDecl {
 		b.WriteString(d + "\n")
 	}
-	for _, e := range extra {
-		b.WriteString("(assert " + e + ")\n")
+	if lite {
+		// weakened hypotheses: quantified parts replaced by true (their ground instances follow)
+		for _, t := range parsed {
+			b.WriteString("(assert " + dropQuant(t, true).String() + ")\n")
+		}
+	} else {
+		for _, e := range extra {
+			b.WriteString("(assert " + e + ")\n")
+		}
 	}
 	if len(in.cands) > 0 {
 		for _, t := range parsed {
